@@ -324,6 +324,8 @@ func compute(lunar *Lunar, lunarYear *LunarYear) {
 	computeDay(lunar)
 	computeTime(lunar)
 	computeWeek(lunar)
+	//八字对象在构造时创建，GetEightChar不再延迟写入（并发读取同一个Lunar时的数据竞争）
+	lunar.eightChar = NewEightChar(lunar)
 }
 
 // GetGan @Deprecated: 该方法已废弃，请使用GetYearGan
